@@ -15,10 +15,11 @@
 static uint32_t vector_twoDBC_rank_of(parsec_data_collection_t* dc, ...);
 static int32_t  vector_twoDBC_vpid_of(parsec_data_collection_t* dc, ...);
 static parsec_data_t* vector_twoDBC_data_of(parsec_data_collection_t* dc, ...);
+static uint32_t vector_twoDBC_rank_of_key(parsec_data_collection_t* dc, parsec_data_key_t key);
+static int32_t  vector_twoDBC_vpid_of_key(parsec_data_collection_t* dc, parsec_data_key_t key);
+static parsec_data_t* vector_twoDBC_data_of_key(parsec_data_collection_t* dc, parsec_data_key_t key);
 
-#if defined(PARSEC_PROF_TRACE) || defined(PARSEC_HAVE_DEV_CUDA_SUPPORT) || defined(PARSEC_HAVE_DEV_HIP_SUPPORT)
 static parsec_data_key_t vector_twoDBC_data_key(struct parsec_data_collection_s *desc, ...);
-#endif /* defined(PARSEC_PROF_TRACE) || defined(PARSEC_HAVE_DEV_CUDA_SUPPORT) || defined(PARSEC_HAVE_DEV_HIP_SUPPORT) */
 
 static int      vector_twoDBC_key_to_string(struct parsec_data_collection_s * desc, parsec_data_key_t datakey, char * buffer, uint32_t buffer_size);
 
@@ -122,13 +123,16 @@ void parsec_vector_two_dim_cyclic_init( parsec_vector_two_dim_cyclic_t * dc,
     dc->super.lln = 1;
 
     /* set the methods */
-    o->rank_of = vector_twoDBC_rank_of;
-    o->vpid_of = vector_twoDBC_vpid_of;
-    o->data_of = vector_twoDBC_data_of;
+    o->rank_of     = vector_twoDBC_rank_of;
+    o->rank_of_key = vector_twoDBC_rank_of_key;
+    o->vpid_of     = vector_twoDBC_vpid_of;
+    o->vpid_of_key = vector_twoDBC_vpid_of_key;
+    o->data_of     = vector_twoDBC_data_of;
+    o->data_of_key = vector_twoDBC_data_of_key;
 
-#if defined(PARSEC_PROF_TRACE) || defined(PARSEC_HAVE_DEV_CUDA_SUPPORT) || defined(PARSEC_HAVE_DEV_HIP_SUPPORT)
+    /* The elements of a vector have a single coordinate: the two-coordinates
+     * data_key of the tiled matrix cannot be used. */
     o->data_key      = vector_twoDBC_data_key;
-#endif
     o->key_to_string = vector_twoDBC_key_to_string;
     o->key_dim       = NULL;
     o->key           = NULL;
@@ -268,9 +272,33 @@ static parsec_data_t* vector_twoDBC_data_of(parsec_data_collection_t *desc, ...)
 }
 
 /*
+ * Same accessors, from the key of the data: the key is the index of the segment
+ * in the global vector (see vector_twoDBC_data_key).
+ */
+static inline unsigned int vector_twoDBC_key_to_coordinate(parsec_data_collection_t *desc, parsec_data_key_t key)
+{
+    parsec_vector_two_dim_cyclic_t *dc = (parsec_vector_two_dim_cyclic_t *)desc;
+    return (unsigned int)key - dc->super.i / dc->super.mb;
+}
+
+static uint32_t vector_twoDBC_rank_of_key(parsec_data_collection_t *desc, parsec_data_key_t key)
+{
+    return vector_twoDBC_rank_of(desc, vector_twoDBC_key_to_coordinate(desc, key));
+}
+
+static int32_t vector_twoDBC_vpid_of_key(parsec_data_collection_t *desc, parsec_data_key_t key)
+{
+    return vector_twoDBC_vpid_of(desc, vector_twoDBC_key_to_coordinate(desc, key));
+}
+
+static parsec_data_t* vector_twoDBC_data_of_key(parsec_data_collection_t *desc, parsec_data_key_t key)
+{
+    return vector_twoDBC_data_of(desc, vector_twoDBC_key_to_coordinate(desc, key));
+}
+
+/*
  * Common functions
  */
-#if defined(PARSEC_PROF_TRACE) || defined(PARSEC_HAVE_DEV_CUDA_SUPPORT) || defined(PARSEC_HAVE_DEV_HIP_SUPPORT)
 /* return a unique key (unique only for the specified parsec_dc) associated to a data */
 static parsec_data_key_t vector_twoDBC_data_key(struct parsec_data_collection_s *desc, ...)
 {
@@ -289,7 +317,6 @@ static parsec_data_key_t vector_twoDBC_data_key(struct parsec_data_collection_s 
 
     return m;
 }
-#endif /* defined(PARSEC_PROF_TRACE) || defined(PARSEC_HAVE_DEV_CUDA_SUPPORT) || defined(PARSEC_HAVE_DEV_HIP_SUPPORT) */
 
 /* return a string meaningful for profiling about data */
 static int
